@@ -268,16 +268,19 @@ def closeValue (F : Frame) (ch : B) (items : List Value) : Value :=
      else Value.struct (buildDict structPut items ([], [])).1 (buildDict structPut items ([], [])).2)
   else (if hasFlag F.flags PFLAG_ATSYM then Value.array items else Value.tuple (ch == 93) 0 0 items)
 
-def closes (F : Frame) (ch : B) : Bool :=
-  (ch == 41 && hasFlag F.flags PFLAG_PARENS) || (ch == 93 && hasFlag F.flags PFLAG_SQRBRACKETS) ||
-  (ch == 125 && hasFlag F.flags PFLAG_CURLYBRACKETS && !hasFlag F.flags PFLAG_PARENS && !hasFlag F.flags PFLAG_SQRBRACKETS)
+def closesF (flags : Nat) (ch : B) : Bool :=
+  (ch == 41 && hasFlag flags PFLAG_PARENS) || (ch == 93 && hasFlag flags PFLAG_SQRBRACKETS) ||
+  (ch == 125 && hasFlag flags PFLAG_CURLYBRACKETS && !hasFlag flags PFLAG_PARENS && !hasFlag flags PFLAG_SQRBRACKETS)
+
+/-- does the closing delimiter `ch` match the container frame `F` (the tests of `root` in parse.c)? -/
+def closes (F : Frame) (ch : B) : Bool := closesF F.flags ch
 
 theorem step_close (scan : List B → Option String) (items A : List Value) (F g : Frame) (R : List Frame) (l c pd : Nat) (lb : Int) (fl : Nat)
     (ch : B) (hroot : F.consumer = .root) (hn : F.argn = items.length) (hev : ch = 125 → items.length % 2 = 0)
     (hch : closes F ch = true) :
     step scan ⟨items.reverse ++ A, none, F :: g :: R, [], l, c, pd, lb, fl⟩ ch =
       (popstate ⟨A, none, F :: g :: R, [], l, c, pd, lb, fl⟩ (closeValue F ch items), true) := by
-  unfold closes at hch
+  unfold closes closesF at hch
   simp only [Bool.or_eq_true, Bool.and_eq_true, Bool.not_eq_true', beq_iff_eq] at hch
   rcases hch with (⟨rfl, hf⟩ | ⟨rfl, hf⟩) | ⟨⟨⟨rfl, hf⟩, hp⟩, hs⟩
   · have e1 : takeArgs ⟨items.reverse ++ A, none, F :: g :: R, [], l, c, pd, lb, fl⟩ F.argn = (items, ⟨A, none, F :: g :: R, [], l, c, pd, lb, fl⟩) :=
